@@ -130,6 +130,15 @@ theorem recoder_position_every_array (e : Env) (i0 i1 : Bytes) (cmds : List Cmd)
   obtain ⟨p, e1⟩ := stepAll_position (i0 ++ i1) h32 e cmds _ s' h0 hm
   exact ⟨by rw [e1]; simp [initSt, hlen], p.iterLen, p.le⟩
 
+/-- **the literal-splitting loop terminates**: the fuel the model gives the `while tmp_inserts.len() > btypel_sub`
+loop (`inserts.len() + types.len() + 2`) is never the reason for a `none`: any extra fuel leaves the result
+unchanged, for every block-split description and every starting counter (meta-block slices are ≤ 2^24 < 2^31 bytes).
+So a model `panic` of the literal part always is a Rust panic site, and the Rust loop cannot spin. -/
+theorem literal_loop_terminates (e : Env) (s : St) (inserts : Pair) (k : Nat) (h31 : inserts.len ≤ 2 ^ 31) :
+    litLoop e.he e.btl (inserts.len + e.btl.types.length + 2 + k) inserts s.lsub s.lc s.mbLen s.out =
+    litLoop e.he e.btl (inserts.len + e.btl.types.length + 2) inserts s.lsub s.lc s.mbLen s.out :=
+  litLoop_fuel_enough e.he e.btl k _ inserts s.lsub s.lc s.mbLen s.out h31 (by omega)
+
 /-- PAYLOAD HYPOTHESIS (the only unproved link): the RFC decoder, run on the encoder's command array with
 the encoder's history, reproduces the meta-block input -/
 def PayloadOK (w : WordOracle) (e : Env) (mb : Bytes) (dc : List Int) (h : Bytes) (cmds : List Cmd) : Prop :=
